@@ -30,6 +30,11 @@ META = {
             "text": "Liveness and credit conservation are checked by TLC on the model (including non-multiple-of-4 buffers); on the real code a pending "
                     "operation at quiescence, a pool/ledger mismatch or progress-free frames are violations.",
             "note": _chmux_note},
+    "C05": {"technique": "TLA+ model of the data message + port-request batch matched by id (Wiring.tla, all serialization orders, rejections and loss) + TLC trace validation of wiring scenarios in which every channel carries its own id (WiringTrace)",
+            "text": "TLC checks that matching requests to halves by id connects every half to its own counterpart for all orders in which sender and receiver meet the halves and all subsets of "
+                    "rejected requests, and that an unconnected half fails at both ends (matching by position is found to miswire); on the real code parcels with halves of every channel type at "
+                    "several nesting positions travel over 1-3 connections, are used once, and both ends log the channel id that arrived: another id, a hang, or an error without exhaustion or cut is a violation.",
+            "note": "Bounds: 3 halves in the model; real code: up to 6 halves per parcel, 1-3 parcels, 1-3 hops, port limits 3/5/64. Trusted: TLC, harness tracer, ids carried in messages."},
     "C06": {"technique": "TLA+ timed fail-stop model (ChmuxFault) + fault enumeration on the real code with TLC trace validation",
             "text": "TLC checks on a clocked model that every fault kind makes both dispatchers fail within a bound and that a healthy idle "
                     "connection is never torn down; the real code is run once per fault kind x direction x frame index under a virtual clock "
